@@ -557,4 +557,94 @@ theorem head_chain (P : Params) (mult : Int) (ls : Nat) (diffMin : Int) (x0 : In
   rw [runSteps_cons_ok _ _ _ _ _ _ e9]; simp only [List.cons_append, List.nil_append]
   rfl
 
+/-- **passes 29 – 30 through the interpreter** on an environment of 29 entries whose entries 1, 5, 28 are the exponentials,
+    the final shift amount and the reciprocal -/
+theorem tail_chain (P : Params) (table xs : List Int) (env : List Val) (ev : List Int) (r n : Int)
+    (hlen : env.length = 29) (h1 : env[1]? = some (.vec ev)) (h5 : env[5]? = some (.scal n)) (h28 : env[28]? = some (.scal r))
+    (hn0 : 0 ≤ n) (hn1 : n ≤ 63) :
+    runSteps table xs (tailProg P) env =
+      .ok (env ++ [.vec (ev.map fun e => nMul 31 e r)] ++
+        [.vec (ev.map fun e => NpuWide.outPlain false P.zpOut (max P.qmin (-32768)) (min P.qmax 32767)
+          (npuScale .natural (nMul 31 e r) 1 n.toNat))]) := by
+  have e29 : evalStep table xs env (w32 .mul (.pass 1) (.pass 28) .tfl 1073741824 31 0) =
+      .ok (.vec (ev.map fun e => nMul 31 e r)) :=
+    eval_mul_vs table xs env _ (.pass 28) 31 ev r rfl rfl ⟨rfl, rfl, rfl, rfl, rfl⟩ rfl (ofs_31 _ _ _ _ _)
+      (by simp only [w32, operandVal, h1]; rfl) (by simp only [operandVal, h28]; rfl)
+  have g29 : (env ++ [Val.vec (ev.map fun e => nMul 31 e r)])[29]? = some (.vec (ev.map fun e => nMul 31 e r)) := by
+    rw [List.getElem?_append_right (by omega), hlen]; rfl
+  have g5 : (env ++ [Val.vec (ev.map fun e => nMul 31 e r)])[5]? = some (.scal n) := by
+    rw [List.getElem?_append_left (by omega), h5]
+  have e30 := eval_shr_vs_plain table xs (env ++ [Val.vec (ev.map fun e => nMul 31 e r)])
+    { kind := .shr, a := .pass 29, b := some (.pass 5), rounding := .natural, mult := 1, shift := 0, aZp := 0, bZp := 0,
+      in32 := true, ofm32 := false, ozp := P.zpOut, lut := none, actMin := max P.qmin (-32768), actMax := min P.qmax 32767 }
+    (.pass 5) (ev.map fun e => nMul 31 e r) n rfl rfl rfl rfl rfl rfl rfl
+    (by simp only [operandVal, g29]; rfl) (by simp only [operandVal, g5]; rfl) hn0 hn1
+  unfold tailProg
+  rw [runSteps_cons_ok _ _ _ _ _ _ e29, runSteps_cons_ok _ _ _ _ _ _ e30, List.map_map]
+  rfl
+
+/-- value of passes 29 + 30 for one element = the reference's output expression over unbounded integers -/
+theorem tail_value (P : Params) (hq1 : -32768 ≤ P.qmin) (hq2 : P.qmax ≤ 32767) (hz : P.zpOut = P.qmin)
+    (e r : Int) (n : Nat) (e0 : 0 ≤ e) (e1 : e ≤ 2147483647) (r0 : 0 ≤ r) (r1 : r ≤ 2147483647) :
+    NpuWide.outPlain false P.zpOut (max P.qmin (-32768)) (min P.qmax 32767) (npuScale .natural (nMul 31 e r) 1 n) =
+      outZ r n P.qmin P.qmax e := by
+  have hm : nMul 31 e r = srdhm e r := npu_mul31 e r (by omega) (by omega) (by omega) (by omega)
+  have hnn : 0 ≤ srdhm e r := by
+    rw [srdhm_eq_fl e r (by omega)]; exact fl_nonneg _ (Int.mul_nonneg e0 r0)
+  rw [hm, Props.C01Wide.shr_natural_eq_rdivpot _ n hnn]
+  unfold NpuWide.outPlain outZ
+  simp only [Bool.false_eq_true, if_false, hz, Int.max_eq_left hq1, Int.min_eq_left hq2]
+
+theorem getLast_concat2 (l : List Val) (a b : Val) : (l ++ [a] ++ [b]).getLast? = some b := by
+  simp
+
+/-- **the whole lowered program on a row of 1 … 511 codes = the reference row** -/
+theorem run_prog8 (P : Params) (mult : Int) (ls : Nat) (diffMin : Int) (x0 : Int) (rest : List Int)
+    (hlen : (x0 :: rest).length ≤ 511) (hx : ∀ x ∈ x0 :: rest, P.qmin ≤ x ∧ x ≤ P.qmax)
+    (hq1 : -32768 ≤ P.qmin) (hq2 : P.qmax ≤ 32767) (hq : P.qmax = P.qmin + 255) (hz : P.zpOut = P.qmin) (hd : diffMin ≤ 0) :
+    runRow (prog8 P) (SoftmaxKernel.expTable8 mult ls diffMin) (x0 :: rest) =
+      .ok (SoftmaxKernel.softmaxRow8 (x0 :: rest) mult ls diffMin P.qmin P.qmax) := by
+  obtain ⟨h, h4, h12, hc, hn0, hn1, href⟩ := ref_row mult ls diffMin P.qmin P.qmax hd (by omega) x0 rest hlen
+  obtain ⟨m1, m2, m3⟩ := foldl_max_facts rest x0
+  have hmxmem : rest.foldl max x0 ∈ x0 :: rest := by
+    rcases m1 with e | e
+    · rw [e]; exact List.mem_cons_self
+    · exact List.mem_cons_of_mem _ e
+  obtain ⟨S1, S2⟩ := sum_facts mult ls diffMin (rest.foldl max x0) hd (x0 :: rest) hmxmem hlen
+  generalize hS : (x0 :: rest).foldl (fun a x => a + rdivpot (expZ mult ls diffMin (rest.foldl max x0) x) 12) 0 = S at *
+  obtain ⟨v7, v8, hhead⟩ := head_chain P mult ls diffMin x0 rest S h hq1 hq2 hq hx hS.symm (by omega) (by omega) h4 h12 hc hn0 hn1
+  obtain ⟨vs, hrecip, hvs⟩ := recip_chain P (SoftmaxKernel.expTable8 mult ls diffMin) (x0 :: rest)
+    (.scal (rest.foldl max x0)) (.vec ((x0 :: rest).map (expZ mult ls diffMin (rest.foldl max x0))))
+    (.vec ((x0 :: rest).map fun x => rdivpot (expZ mult ls diffMin (rest.foldl max x0) x) 12)) (.scal S) (.scal (h : Int))
+    (.scal (35 - (h : Int))) (.scal ((h : Int) - 1)) (.scal v7) (.scal v8) (normZ S h)
+  obtain ⟨hr1, hr2, hr3⟩ := npu_recip_eq (normZ S h) hn0 hn1
+  have hl : ([Val.scal (rest.foldl max x0), .vec ((x0 :: rest).map (expZ mult ls diffMin (rest.foldl max x0))),
+      .vec ((x0 :: rest).map fun x => rdivpot (expZ mult ls diffMin (rest.foldl max x0) x) 12), .scal S, .scal (h : Int),
+      .scal (35 - (h : Int)), .scal ((h : Int) - 1), .scal v7, .scal v8, .scal (normZ S h)] ++ vs).length = 28 := by
+    simp only [List.length_append, List.length_cons, List.length_nil, hvs]
+  have htail := tail_chain P (SoftmaxKernel.expTable8 mult ls diffMin) (x0 :: rest)
+    ([Val.scal (rest.foldl max x0), .vec ((x0 :: rest).map (expZ mult ls diffMin (rest.foldl max x0))),
+      .vec ((x0 :: rest).map fun x => rdivpot (expZ mult ls diffMin (rest.foldl max x0) x) 12), .scal S, .scal (h : Int),
+      .scal (35 - (h : Int)), .scal ((h : Int) - 1), .scal v7, .scal v8, .scal (normZ S h)] ++ vs ++
+      [.scal (npuRecip (normZ S h))])
+    ((x0 :: rest).map (expZ mult ls diffMin (rest.foldl max x0))) (npuRecip (normZ S h)) (35 - (h : Int))
+    (by rw [List.length_append, hl]; rfl) rfl rfl
+    (by rw [List.getElem?_append_right (by omega), hl]; rfl)
+    (by omega) (by omega)
+  unfold runRow prog8
+  rw [List.append_assoc, runSteps_append _ _ _ _ _ _ hhead, runSteps_append _ _ _ _ _ _ hrecip, htail]
+  simp only [getLast_concat2]
+  rw [href]
+  unfold refRow
+  rw [hS, List.map_map]
+  show Except.ok _ = Except.ok _
+  simp only []
+  apply congrArg Except.ok
+  apply List.map_congr_left
+  intro x _
+  obtain ⟨ez0, ez1⟩ := expZ_range mult ls diffMin (rest.foldl max x0) x
+  simp only [Function.comp]
+  have hnat : (35 - (h : Int)).toNat = 35 - h := by omega
+  rw [hnat, tail_value P hq1 hq2 hz _ _ _ ez0 ez1 hr2 hr3, hr1]
+
 end VelaVerif.Lemmas.SoftmaxRowL
